@@ -1171,9 +1171,45 @@ def rule_p13(F):
     return r
 
 
+def rule_p14(F):
+    """Every character of the source is lexed exactly once and in order: the lexer's cursor (`Lexer::input`, the not yet consumed rest
+    of the text) only ever becomes a SUFFIX OF ITSELF.  An assignment that recomputes it from something else (a saved copy of the
+    whole source and an offset: a "rewind" after look-ahead) can resume at a position that is not where the raw text that follows
+    starts - after `{ f"` the parser reads the f-string body raw, and a rewind to the start of the next token skips the body's
+    leading whitespace, which is part of the string."""
+    from .c08 import deps
+    r = RuleResult("C09.P14", "the lexer's cursor only moves forward: every assignment to Lexer::input is computed from the current input", floor=1)
+    n = 0
+    for b in F.bodies_in(["src/parser/lexer.rs", "src/parser/mod.rs", "src/parser/expr.rs"]):
+        if not b.mir or "::tests::" in b.path:
+            continue
+        defs = None
+        for bi, blk in enumerate(b.blocks):
+            for st in blk["stmts"]:
+                if st["k"] != "assign" or not any(isinstance(e, list) and e[0] == "f" and e[2] == "input" for e in st["p"][1:]):
+                    continue
+                if "Lexer" not in str(b.mir["locals"][st["p"][0]].get("ty") or ""):
+                    continue
+                defs = defs or mir.Defs(b)
+                srcs = set()
+                for x in mir.rv_locals(st["rv"]):
+                    srcs |= set(deps(b, defs, x))
+                n += 1
+                from_input = any(x.endswith(".input") or ".input." in x for x in srcs)
+                elsewhere = sorted(x for x in srcs if "." in x and not (x.endswith(".input") or ".input." in x) and x.split(".")[0] == "arg1")
+                r.inst("%s sets the cursor #%d" % (hir.last(b.path), n), {"fn": b.path, "line": st.get("line"), "computed_from": sorted(srcs)[:6]})
+                if not from_input or elsewhere:
+                    r.bad(b.path, "cursor recomputed from %s" % (", ".join(elsewhere) or "something else than the current input"), relfile(b.file), st.get("line") or b.line,
+                          "%s sets the lexer's cursor from %s instead of from the current input: the cursor can move to a position that is not where the text that is read next starts "
+                          "(a rewind after look-ahead drops or repeats characters - e.g. the leading whitespace of an f-string body)" % (hir.last(b.path), sorted(srcs)[:4]))
+    if n == 0:
+        r.missing("an assignment to Lexer::input in the parser")
+    return r
+
+
 def rules(ctx):
     F = ctx["F"]
-    return [rule_p1(F), rule_p2(F), rule_p3(F), rule_p4(F), rule_p5(F), rule_p6(F), rule_p7(F), rule_p8(F), rule_p9(F), rule_p10(F), rule_p11(F), rule_p12(F), rule_p13(F)]
+    return [rule_p1(F), rule_p2(F), rule_p3(F), rule_p4(F), rule_p5(F), rule_p6(F), rule_p7(F), rule_p8(F), rule_p9(F), rule_p10(F), rule_p11(F), rule_p12(F), rule_p13(F), rule_p14(F)]
 
 
 def canary(C):
